@@ -5,7 +5,7 @@ package main
 //   Gen/SchemasJson.v  shipped_schema_json : list (bytes * json)     the raw JSON of every file
 //   Gen/Schemas.v      shipped_schemas     : list (bytes * schema)   the same files as Schema.schema
 //                      shipped_patterns    : list pattern            every distinct pattern, parsed
-//                      go_*                                           the Go-side leaf rules (cbc.KeyPattern ...)
+//                      go_*                                           the Go-side leaf rules (cbc.KeyPattern, cbc.CodePattern, length limits)
 // Anything outside the modelled keyword / regular expression subset makes the translation FAIL.
 
 import (
@@ -20,7 +20,6 @@ import (
 	"strings"
 
 	"github.com/invopop/gobl/cbc"
-	"github.com/invopop/gobl/tax"
 )
 
 // ---- ordered JSON ----
@@ -918,12 +917,11 @@ func genSchemas(repo string) (string, error) {
 	}
 	sb.WriteString("].\n")
 	// the Go-side leaf rules, as the linked packages define them now
-	sb.WriteString("(* leaf rules of the implementation (cbc.KeyPattern, cbc.CodePattern, tax.IdentityCodePattern and the length limits) *)\n")
+	sb.WriteString("(* leaf rules of the implementation (cbc.KeyPattern, cbc.CodePattern and the length limits) *)\n")
 	fmt.Fprintf(&sb, "Definition go_key_pattern : bytes := Eval vm_compute in %s.\n", coqBytes(cbc.KeyPattern))
 	fmt.Fprintf(&sb, "Definition go_key_min_length : Z := %d%%Z.\nDefinition go_key_max_length : Z := %d%%Z.\n", cbc.KeyMinLength, cbc.KeyMaxLength)
 	fmt.Fprintf(&sb, "Definition go_code_pattern : bytes := Eval vm_compute in %s.\n", coqBytes(cbc.CodePattern))
 	fmt.Fprintf(&sb, "Definition go_code_min_length : Z := %d%%Z.\nDefinition go_code_max_length : Z := %d%%Z.\n", cbc.CodeMinLength, cbc.CodeMaxLength)
-	fmt.Fprintf(&sb, "Definition go_tax_identity_code_pattern : bytes := Eval vm_compute in %s.\n", coqBytes(tax.IdentityCodePattern))
 	return sb.String(), nil
 }
 
